@@ -289,7 +289,15 @@ def handleEuclid (j : Json) : R (List (String × Json)) := do
   let idx := List.range n
   let implSize ← natF impl "size"
   let implSame ← boolF impl "same"
-  if rounded then
+  if rounded && !(fldD impl "non_integral" Json.null).isNull then
+    -- the implementation's rounded matrix has a non-integral entry
+    let bits ← listF asNat impl "bits"
+    let at_ (f t : Nat) : Nat := bits.getD (f * implSize + t) 1
+    let sym := idx.all (fun f => idx.all (fun t => at_ f t == at_ t f))
+    return [("model", Json.mkObj (base ++ [("m", jList jNat (euclidRounded uniq))])),
+            ("oracle", Json.mkObj [("rounded_entries_integral", Json.bool false), ("symmetric", Json.bool (sym && implSize == n)),
+                                   ("four_methods_agree", Json.bool implSame)])]
+  else if rounded then
     let m ← listF asInt impl "m"
     let at_ (f t : Nat) : Int := m.getD (f * implSize + t) (-1)
     let sym := idx.all (fun f => idx.all (fun t => at_ f t == at_ t f))
